@@ -856,7 +856,7 @@ func init() {
 					if r.Thorough() {
 						return 5
 					}
-					return 3
+					return 4
 				},
 				Body: c06CarrierBody([]int{1, 0, 2, 3, 4}),
 			},
@@ -867,7 +867,7 @@ func init() {
 					if r.Thorough() {
 						return 6
 					}
-					return 3
+					return 4
 				},
 				Body: c06FragBody,
 			},
